@@ -283,6 +283,8 @@ class SweepMachine:
             raise AnalysisError(f'{self.fi.qual}: conditional at line {s.lineno}: {ex}')
 
     def loop(self, s, st):
+        if all(isinstance(b, ast.Assert) or (isinstance(b, ast.Expr) and isinstance(b.value, ast.Constant)) for b in s.body):
+            return st        # a loop of consistency checks changes nothing
         if not isinstance(s.target, ast.Name):
             raise AnalysisError(f'{self.fi.qual}: loop target at line {s.lineno} is not a name')
         var = s.target.id
@@ -513,6 +515,29 @@ class SweepMachine:
                 if mode == ['left'] or not mode:
                     return State(Affine.const(-1), self.Lv, self.Lv, self.Lv - ONE)
                 raise AnalysisError(f'{self.fi.qual}: orthonormalize mode not recognised')
+        # ---- a private helper of the same module that receives the state: its body is followed in place
+        if isinstance(value, ast.Call) and isinstance(value.func, ast.Name) and not targets and \
+                all(isinstance(a_, ast.Name) for a_ in value.args) and not value.keywords:
+            r_ = self.repo.resolve_name(self.fi.module, value.func.id)
+            if r_ and r_[0] == 'func' and r_[1].module == self.fi.module and \
+                    any(a_.id == self.psi for a_ in value.args) and len(getattr(self, '_inl', [])) < 3:
+                callee = r_[1]
+                body = [b for b in callee.node.body if not (isinstance(b, ast.Expr) and isinstance(b.value, ast.Constant))]
+                if len(callee.params) == len(value.args) and not any(isinstance(x, ast.Return) and x.value is not None
+                                                                       for b in body for x in ast.walk(b)):
+                    import copy as _copy
+                    from .canon import _Ren
+                    ren = {f_: a_.id for f_, a_ in zip(callee.params, value.args) if f_ != a_.id}
+                    self._inl = getattr(self, '_inl', []) + [callee.qual]
+                    try:
+                        for b in body:
+                            if isinstance(b, ast.Return):
+                                break
+                            b2 = _Ren(ren).visit(_copy.deepcopy(b)) if ren else b
+                            st = self.stmt(b2, st)
+                    finally:
+                        self._inl.pop()
+                    return st
         # ---- any other call that receives the state as a whole may change it: nothing is known afterwards
         for c in ast.walk(value):
             if isinstance(c, ast.Call):
